@@ -1104,10 +1104,15 @@ pub(crate) fn calculate_func_call_order(
         let mut seen_named_args = HashSet::default();
         let mut missing_arg_names: HashSet<String> = func_arg_info.required_args.clone();
         // TODO: still need to account for: can't put unnamed args after the first named arg.
+        let mut unknown_name_encountered = false;
         for (i, arg) in args.iter().enumerate() {
             if let Some(name) = &arg.name {
                 named_encountered = true;
+                // reports an unresolved identifier if there is no such parameter
                 resolve_identifier(ctx, &func_arg_info.symbol_table, name);
+                if !func_arg_info.arg_indices.contains(&name.v) {
+                    unknown_name_encountered = true;
+                }
                 if seen_named_args.contains(&name.v) {
                     ctx.errors.push(Error::GenericWithNode {
                         msg: "Can't specify a named argument more than once".to_string(),
@@ -1147,6 +1152,10 @@ pub(crate) fn calculate_func_call_order(
                 msg,
                 node: funcap_node,
             });
+            return;
+        }
+        if unknown_name_encountered {
+            // already reported; the arguments can't be put in order
             return;
         }
         ctx.function_call_arg_order.insert(
